@@ -314,6 +314,22 @@ def check_plot(rep, ix):
             ok = has_wrap and bool(good)
     rep.ob('R-C19-PLOT', site, 'a wrap is interpolated only from this curve\'s own previous point (per-curve state set after a successful scale transformation is tested for None)', ok,
            found=found, required='wr != <curve>.prevWrap and ... <per-curve previous point> is not None', node=lp, module=m)
+    # the wrap interpolation is configured by the curve being plotted: track width and scale function are looked up with this
+    # curve's identity (or are this curve's own function), not with a variable left over from another loop
+    ok = False
+    found = ''
+    if len(interp) == 1:
+        from .. import defuse
+        call = [c for c in cfgmod.calls_at(interp[0]) if _n(c.func) == 'self._interpolateBackup']
+        if call and len(call[0].args) >= 5:
+            curve = _n(call[0].args[0])
+            twd = _n(defuse.inline_locals(f, call[0].args[3], depth=3, keep=(curve,)))
+            ltb = _n(defuse.inline_locals(f, call[0].args[4], depth=3, keep=(curve,)))
+            found = f'{twd} ; {ltb}'
+            film = f.args.args[1].arg
+            ok = twd == f'self._presCfg[{curve}.id].tracWidthData({film})' and ltb in (f'self._presCfg[{curve}.id].tracValueFunction({film})', f'{curve}.fn')
+    rep.ob('R-C19-PLOT', site, 'wrap interpolation uses the track width and scale of the curve being plotted', ok, found=found,
+           required='self._presCfg[<curve>.id].tracWidthData(film), self._presCfg[<curve>.id].tracValueFunction(film) | <curve>.fn', node=lp, module=m)
     # flush after the loop
     after = [s for s in f.body if isinstance(s, ast.For) and s is not lp and any(isinstance(x, ast.Call) and _n(x.func) == 'self._flushPolyLineBuffer' for x in ast.walk(s))]
     rep.ob('R-C19-PLOT', site, 'buffers are flushed after the last point', any(f.body.index(s) > f.body.index(lp) for s in after) if lp in f.body else False, node=f, module=m)
@@ -501,6 +517,6 @@ def run(rep, ix, tier):
     check_xunits(rep, ix)
     check_api(rep, ix)
     rep.floor('R-C19-WRAP', 18)
-    rep.floor('R-C19-PLOT', 16)
+    rep.floor('R-C19-PLOT', 17)
     rep.floor('R-C19-XUNITS', 9)
     rep.floor('R-C19-API', 20)
